@@ -431,6 +431,6 @@ func genC12At(idx uint64, g *rand.Rand, tier string) any {
 }
 
 func init() {
-	Register(&Family{Name: "c12.hostile-client", Props: []string{"C12"}, New: func() any { return &C12Params{} }, Gen: genC12, GenAt: genC12At, Exec: execC12,
+	Register(&Family{Name: "c12.hostile-client", ShrinkKeys: []string{"seq"}, Props: []string{"C12"}, New: func() any { return &C12Params{} }, Gen: genC12, GenAt: genC12At, Exec: execC12,
 		Faulty: true, FaultKinds: []string{"peer.malformed"}})
 }
